@@ -12,7 +12,11 @@ import uuid
 from aiomqtt import Client as AsyncioClient
 from aiomqtt import MqttError
 
-from aiomysensors.exceptions import TransportError, TransportFailedError
+from aiomysensors.exceptions import (
+    TransportError,
+    TransportFailedError,
+    TransportReadError,
+)
 
 from . import Transport
 
@@ -265,7 +269,13 @@ class MQTTClient(MQTTTransport):
         try:
             async for message in self._client.messages:
                 payload = cast(bytes, message.payload)
-                self._receive(message.topic.value, payload.decode())
+                try:
+                    decoded_payload = payload.decode()
+                except UnicodeDecodeError as err:
+                    # Report the bad message to the reader and keep receiving.
+                    self._receive_error(TransportReadError(err, payload))
+                    continue
+                self._receive(message.topic.value, decoded_payload)
         except MqttError as err:
             self._receive_error(
                 TransportFailedError(f"Failed to receive message: {err}"),
